@@ -5,4 +5,5 @@ cd "$(dirname "$0")"
 export CARGO_NET_OFFLINE=true
 python3-vt irsym/build.py rel >/dev/null
 python3-vt irsym/build.py rel native >/dev/null
+python3-vt irsym/tv.py
 echo "setup ok"
